@@ -12,7 +12,7 @@ with what the implementation printed.  A difference is conformance drift (report
 """
 import os, subprocess, hashlib
 from concurrent.futures import ThreadPoolExecutor
-from lib.core import Case
+from lib.core import Case, GenError
 from lib import cbuild, detsched
 
 ID = "C08"
@@ -52,6 +52,46 @@ RULE = ("1-3 client programs over {schedule_now, schedule_future(virtual start +
         "(programs, pick list) pairs; every schedule run is also replayed in the model (traces_validated_against_impl)")
 
 START_NS = 1000000000
+
+
+# ------------------------------------------------------------------ structural bridge to the source
+_INIT_BEFORE_LAUNCH = [
+    "scheduler->allocator = allocator",
+    "aws_mutex_init(&scheduler->thread_data.mutex)",
+    "aws_condition_variable_init(&scheduler->thread_data.c_var)",
+    "aws_task_scheduler_init(&scheduler->scheduler",
+    "aws_atomic_init_int(&scheduler->should_exit",
+    "aws_ref_count_init(&scheduler->ref_count",
+    "aws_linked_list_init(&scheduler->thread_data.scheduling_queue)",
+    "aws_linked_list_init(&scheduler->thread_data.cancel_queue)",
+]
+
+
+def regen(ctx):
+    """The model's initial state has every field the scheduler thread reads initialised before the thread takes its
+    first step.  detsched cannot preempt between pthread_create returning and the plain stores that follow it, so this
+    happens-before edge is checked on the source: in aws_thread_scheduler_new every initialisation precedes
+    aws_thread_launch.  A failure is a broken correspondence (reported like a translator rejection)."""
+    path = os.path.join(cbuild.REPO, "source", "thread_scheduler.c")
+    try:
+        src = open(path).read()
+    except OSError as e:
+        raise GenError(f"cannot read {path}: {e}")
+    i = src.find("struct aws_thread_scheduler *aws_thread_scheduler_new(")
+    j = src.find("\nvoid aws_thread_scheduler_acquire", i)
+    if i < 0 or j < 0:
+        raise GenError("aws_thread_scheduler_new not found in source/thread_scheduler.c")
+    body = src[i:j]
+    k = body.find("aws_thread_launch(&scheduler->thread, s_thread_fn, scheduler")
+    if k < 0:
+        raise GenError("aws_thread_scheduler_new: the launch of s_thread_fn was not found")
+    for tok in _INIT_BEFORE_LAUNCH:
+        p = body.find(tok)
+        if p < 0:
+            raise GenError(f"aws_thread_scheduler_new: initialisation `{tok}` not found (model assumes it happens before the thread starts)")
+        if p > k:
+            raise GenError(f"aws_thread_scheduler_new launches the scheduler thread before `{tok}`: the thread can run on an "
+                           "uninitialised field (the model's initial state is not established)")
 
 
 # ------------------------------------------------------------------ scenarios
@@ -99,6 +139,20 @@ NAMED = [
      [(0, "R", ("sf", 16, 2000)), (16, "R", ("c", 1)), (1, "C", ("sn", 17))]),
     ("2 clients: re-entry while the other client schedules", [[("sn", 0), ("sl", 3000), ("rel",)], [("sn", 1), ("sn", 2), ("c", 2), ("sl", 3000), ("rel",)]],
      [(0, "R", ("sn", 16)), (1, "R", ("c", 16)), (16, "R", ("sf", 17, 10**15))]),
+    # many timed tasks at once: the inner scheduler's heap beyond its initial 7 slots, removals from the middle
+    ("9 timed tasks, descending, all run", [[("sf", k, 9000 - 1000 * k) for k in range(9)] + [("sl", 20000), ("rel",)]]),
+    ("10 timed tasks zig-zag, middle ones cancelled, rest run",
+     [[("sf", k, d) for k, d in enumerate([5000, 1000, 9000, 3000, 7000, 2000, 8000, 4000, 6000, 500])] +
+      [("c", 3), ("c", 0), ("c", 8), ("sl", 20000), ("rel",)]]),
+    ("8 timed tasks ascending, first and last cancelled, pending at release",
+     [[("sf", k, 10**9 + 1000 * k) for k in range(8)] + [("sl", 100), ("c", 0), ("c", 7), ("c", 4), ("sl", 100), ("rel",)]]),
+    ("2 clients: 6 + 6 timed tasks interleaved, cancels, all run",
+     [[("sf", k, 700 * (11 - k)) for k in range(0, 12, 2)] + [("c", 4), ("sl", 20000), ("rel",)],
+      [("sf", k, 700 * (k + 1) + 350) for k in range(1, 12, 2)] + [("c", 7), ("c", 1), ("sl", 20000), ("rel",)]]),
+    # a clock that moves with every read: a task can become due between run_all's clock read and the wake predicate's
+    ("ticking clock, dense time stamps", [[("sa", k, 1000000003 + k) for k in range(10)] + [("sl", 300), ("rel",)]], [], False, 1),
+    ("ticking clock, sparse stamps + cancel", [[("sa", 0, 1000000010), ("sa", 1, 1000000017), ("sn", 2), ("c", 1), ("sl", 100), ("rel",)]],
+     [], False, 3),
     # use after the last release (outside the property; only compared with the model)
     ("misuse: cancelled-at-shutdown schedules", [[("sa", 0, MAXT), ("rel",)]], [(0, "C", ("sn", 16))], True),
     ("misuse: cancelled-at-shutdown cancels", [[("sa", 0, MAXT), ("sa", 1, "MAX-1"), ("rel",)]], [(0, "C", ("c", 1))], True),
@@ -111,8 +165,13 @@ def _named(i):
     return e[0], e[1], (e[2] if len(e) > 2 else []), (e[3] if len(e) > 3 else False)
 
 
+def _named_tick(i):
+    e = NAMED[i]
+    return e[4] if len(e) > 4 else 0
+
+
 # small scenarios explored exhaustively up to the preemption bound
-EXHAUSTIVE = [0, 1, 3, 5, 7, 8, 9, 12, 13, 17, 18, 19, 23, 25]
+EXHAUSTIVE = [0, 1, 3, 5, 7, 8, 9, 12, 13, 17, 18, 19, 27, 29, 31]
 EXHAUSTIVE_THOROUGH = [0, 1, 3, 5, 7, 8, 9, 12, 17, 18, 19, 22]
 EXHAUSTIVE_QUICK2 = [0, 1, 9, 12, 18]      # bound 2 already in the quick tier (short schedules)
 
@@ -154,10 +213,17 @@ def random_programs(rng):
                 return op
         return None
 
+    many = rng.random() < 0.12          # many timed tasks at once (heap beyond its initial capacity)
     for c in range(n):
         p = []
         mine = []
         held = 1
+        if many:
+            for _ in range(rng.randint(4, 9)):
+                if next_task < 12:
+                    st = fresh_stamp()
+                    if st:
+                        p.append((st[0], next_task, st[1])); mine.append(next_task); next_task += 1
         for _ in range(rng.randint(1, 4)):
             r = rng.random()
             if r < 0.30 and next_task < 12:
@@ -232,8 +298,8 @@ def random_programs(rng):
     return progs, cbs, misuse
 
 
-def case_lines(progs, mode, seed=0, stay=50, spur=0, choices=None, picks=None, evs=None, cbs=()):
-    ls = [f"cfg {len(progs)} {mode} {seed} {stay} {spur}"]
+def case_lines(progs, mode, seed=0, stay=50, spur=0, choices=None, picks=None, evs=None, cbs=(), tick=0):
+    ls = [f"cfg {len(progs)} {mode} {seed} {stay} {spur}" + (f" {tick}" if tick else "")]
     for i, p in enumerate(progs):
         ls.append(f"prog {i} " + _fmt(p))
     for (t, k, op) in cbs:
@@ -284,7 +350,7 @@ def _run_batch(exe, batch):
 def record(exe, specs, jobs=16):
     """specs: list of dict(progs, mode, seed, stay, spur, choices).  Returns list of (spec, picks|None, evs|None)."""
     items = [(i, case_lines(s["progs"], s["mode"], s.get("seed", 0), s.get("stay", 50), s.get("spur", 0), s.get("choices"),
-                            cbs=s.get("cbs", ())))
+                            cbs=s.get("cbs", ()), tick=s.get("tick", 0)))
              for i, s in enumerate(specs)]
     jobs = max(1, min(jobs, len(items)))
     chunks = [items[k::jobs] for k in range(jobs)]
@@ -315,35 +381,37 @@ def gen_cases(rng, tier):
     for si in range(len(NAMED)):
         name, progs, cbs, misuse = _named(si)
         for _ in range(60 if quick else 400):
-            specs.append(dict(progs=progs, cbs=cbs, misuse=misuse, mode="seed", seed=rng.randrange(1, 2**31),
+            specs.append(dict(progs=progs, cbs=cbs, misuse=misuse, tick=_named_tick(si), mode="seed", seed=rng.randrange(1, 2**31),
                               stay=rng.choice([0, 30, 60, 85]), spur=rng.choice([0, 0, 50, 250]), name=name))
     # 2. random program sets
     for _ in range(3000 if quick else 40000):
         progs, cbs, misuse = random_programs(rng)
-        specs.append(dict(progs=progs, cbs=cbs, misuse=misuse, mode="seed", seed=rng.randrange(1, 2**31),
+        specs.append(dict(progs=progs, cbs=cbs, misuse=misuse, tick=rng.choice([0, 0, 0, 1, 3, 1000]), mode="seed",
+                          seed=rng.randrange(1, 2**31),
                           stay=rng.choice([0, 30, 60, 85]), spur=rng.choice([0, 0, 50, 250]), name="random"))
     # 3. bounded-preemption enumeration: first the run-to-block schedule to learn its length
     ex_idx = EXHAUSTIVE
-    base = record(exe, [dict(progs=_named(i)[1], cbs=_named(i)[2], mode="choices", choices=[], spur=0, stay=100) for i in ex_idx])
+    base = record(exe, [dict(progs=_named(i)[1], cbs=_named(i)[2], tick=_named_tick(i), mode="choices", choices=[], spur=0, stay=100)
+                        for i in ex_idx])
     for (spec, picks, _), i in zip(base, ex_idx):
         name, progs, cbs, misuse = _named(i)
         L = len(picks) if picks else 60
         m = len(progs) + 2
         for p in range(L + 2):
             for k in range(1, m + 1):
-                specs.append(dict(progs=progs, cbs=cbs, misuse=misuse, mode="choices", choices=[0] * p + [k], stay=100, spur=0,
-                                  name="bound1:" + name))
+                specs.append(dict(progs=progs, cbs=cbs, misuse=misuse, tick=_named_tick(i), mode="choices", choices=[0] * p + [k],
+                                  stay=100, spur=0, name="bound1:" + name))
         if (i in EXHAUSTIVE_QUICK2) or (not quick and i in EXHAUSTIVE_THOROUGH):
             for p in range(L + 2):
                 for k in range(1, m + 1):
                     for q in range(0, L + 6 - p):
                         for k2 in range(1, m + 1):
-                            specs.append(dict(progs=progs, cbs=cbs, misuse=misuse, mode="choices",
+                            specs.append(dict(progs=progs, cbs=cbs, misuse=misuse, tick=_named_tick(i), mode="choices",
                                               choices=[0] * p + [k] + [0] * q + [k2], stay=100, spur=0, name="bound2:" + name))
     cases = []
     for spec in specs:
         ops = case_lines(spec["progs"], spec["mode"], spec.get("seed", 0), spec.get("stay", 50), spec.get("spur", 0),
-                         spec.get("choices"), cbs=spec.get("cbs", ()))
+                         spec.get("choices"), cbs=spec.get("cbs", ()), tick=spec.get("tick", 0))
         cases.append(Case(ops, {"scenario": spec.get("name"), "mode": spec["mode"], "clients": len(spec["progs"]),
                                 "reentrant": bool(spec.get("cbs")), "misuse_after_release": bool(spec.get("misuse"))}))
     return cases
